@@ -257,6 +257,15 @@ class Index:
                 m = self.method(ci, mname) if ci is not None else None
                 if m is not None:
                     return m
+            elif mod in self.repo.modules:
+                # a function that moved to another module of the package and is imported back under its old name is still that function
+                try:
+                    c = self.canon(ast.Name(id=qual, ctx=ast.Load()), self.repo.modules[mod])
+                    obj = self.lookup(c) if c else None
+                    if isinstance(obj, FuncInfo):
+                        return obj
+                except Exception:
+                    pass
             raise AnalysisError(f"anchor function {key} not found") from None
 
     def cls(self, key):
@@ -267,6 +276,26 @@ class Index:
 
     def maybe_func(self, key):
         return self.functions.get(key)
+
+    def expanded_decorators(self, finfo):
+        """The decorator list of a function with decorators that are functions OF THE PACKAGE replaced by the click.option / click.argument / click.command calls their
+        body applies (a shared `force_option(func)` helper declares the same option on every command that uses it)."""
+        out = []
+        for d in finfo.node.decorator_list:
+            dc = d.func if isinstance(d, ast.Call) else d
+            g = None
+            if isinstance(dc, (ast.Name, ast.Attribute)):
+                c = self.canon(dc, finfo.module)
+                obj = self.lookup(c) if c else None
+                if isinstance(obj, FuncInfo):
+                    g = obj
+            if g is None:
+                out.append(d)
+                continue
+            inner = [n for n in ast.walk(g.node) if isinstance(n, ast.Call) and isinstance(n.func, (ast.Name, ast.Attribute))
+                     and (self.canon(n.func, g.module) or "") in ("click.option", "click.argument", "click.command", "click.group", "click.pass_context", "click.version_option")]
+            out.extend(inner if inner else [d])
+        return out
 
     def finfo_of(self, node):
         """FuncInfo of the function lexically containing node (None at module level)."""
